@@ -101,7 +101,8 @@ def check_model(w, view, probs, who, key=None):
             continue
         certs = m.uids[name]['certs']
         tmax = max(t for t, _ in certs)
-        accept = [H.prefs_view(p) for t, p in certs if t == tmax]
+        # the most recent self-certification: latest creation time; among self-certifications made in the same second the one made last
+        accept = [H.prefs_view([p for t, p in certs if t == tmax][-1])]
         ss = u.selfsig
         if ss is None:
             probs.append(('effective-prefs', '%s: identity %s reports no self-signature' % (who, name)))
@@ -121,8 +122,8 @@ class Prop(object):
             'certification exportable / local, revoke identity / subkey / key, designated revoker, direct-key signature, delete identity, protect, derive public '
             'key, copy, export-import binary / armored) from 3 roots (Ed25519, P-256, RSA-2048), all sequences up to the depth bound, deduplicated on the canonical '
             'export (times ranked, integers masked). One state = one canonical key state; one transition = one real API call replayed on fresh objects.')
-    ASSUMPTIONS = ['"most recent self-signature" is read as: most recent self-certification of a non-revoked identity; ties in the creation second accept any of the tied '
-                   'signatures', 'refpgp.sig / refpgp.tpk are the verifying oracle']
+    ASSUMPTIONS = ['"most recent self-signature" is read as: most recent self-certification of a non-revoked identity; among self-certifications made in the same second the '
+                   'one made last in the history (PGPy keeps insertion order for equal times, also across copy and export / import)', 'refpgp.sig / refpgp.tpk are the verifying oracle']
     CASE_TIMEOUT = 1500
 
     def bound(self, tier):
